@@ -107,10 +107,40 @@ def decode_rungs(F, CE, b):
                     rung = p
                     break
             guard = None
-            if rung is not None:
+            # an arm of an exhaustive match on the first byte (`0x80..=0xBF => ..`): the end of the arm's range
+            anc = list(pm.get(id(n), ())) + [n]
+            for i_ in range(len(anc) - 2, -1, -1):
+                m_ = anc[i_]
+                if m_.get("k") == "Match" and Wk.expand(Wk.T.term(m_["e"])) == first:
+                    for a_ in m_["arms"]:
+                        if any(x is anc[i_ + 1] for x in walk(a_["body"])) or a_["body"] is anc[i_ + 1]:
+                            p_ = a_["pat"]
+                            if p_.get("k") == "PRange" and isinstance(p_.get("hi"), dict) and p_["hi"].get("lk") == "int":
+                                guard = int(p_["hi"]["v"], 0) + (1 if p_.get("incl") else 0) if isinstance(p_["hi"]["v"], str) else int(p_["hi"]["v"]) + (1 if p_.get("incl") else 0)
+                            elif p_.get("k") == "PLit" and p_.get("lk") == "int":
+                                guard = (int(p_["v"], 0) if isinstance(p_["v"], str) else int(p_["v"])) + 1
+                    rung = None
+                    break
+            if rung is not None and guard is None:
                 c = Wk.T.term(rung["c"])
                 if c[0] == "op" and c[1] == "<" and c[2] == first:
                     guard = cev(CE, c[3])
+                else:
+                    # the first byte classified by ranges (`match x { 0x80..=0xBF => .. }`, an if-chain on `lo <= x && x <= hi`
+                    # after normalisation): the exclusive upper end of the range is the threshold
+                    def upper(c):
+                        if c[0] == "op" and c[1] == "&&":
+                            return upper(c[3]) or upper(c[2])
+                        if c[0] == "op" and c[1] == "<=" and Wk.expand(c[2]) == first:
+                            v = cev(CE, c[3])
+                            return None if v is None else v + 1
+                        if c[0] == "op" and c[1] == "<" and Wk.expand(c[2]) == first:
+                            return cev(CE, c[3])
+                        if c[0] == "op" and c[1] == "==" and Wk.expand(c[2]) == first:
+                            v = cev(CE, c[3])
+                            return None if v is None else v + 1
+                        return None
+                    guard = upper(c)
             rets.append((guard, t[1], t[2]))
     Walker(F, b, on_node=on_node).run()
     out = []
@@ -380,6 +410,11 @@ def r09_2(ctx, rr):
     ls = ("var", "self", lb.params[0]["id"])
     TL = Termizer(F, lb)
     okp = any(n.get("k") == "If" and TL.term(n["c"]) == mk_op("==", mk_op("%", ("field", ls, "index"), ("field", ("field", ls, "rca"), "k")), ("int", 0)) and any(x.get("k") == "MethodCall" and x["name"] == "clear" and TL.term(x["recv"]) == ("field", ls, "buffer") for x in walk(n["th"])) for n in walk(lb.body))
+    if not okp:
+        # the same test with the other polarity: `if index % k != 0 { rear-coded } else { verbatim }`
+        pred_ne = mk_op("!=", mk_op("%", ("field", ls, "index"), ("field", ("field", ls, "rca"), "k")), ("int", 0))
+        okp = any(n.get("k") == "If" and "el" in n and TL.term(n["c"]) == pred_ne and any(x.get("k") == "MethodCall" and x["name"] == "clear" and TL.term(x["recv"]) == ("field", ls, "buffer") for x in walk(n["el"]))
+                  and not any(x.get("k") == "MethodCall" and x["name"] == "clear" for x in walk(n["th"])) for n in walk(lb.body))
     rr.instances += 1
     rr.check(okp, "Lend::next:block-predicate", "Lend::next must restart from a verbatim string exactly when `index % k == 0` (the builder's predicate)", lb.span)
     gb = F.one(r"^dict::rear_coded_list::RearCodedList::<D, P>::get_in_place$")
